@@ -68,44 +68,46 @@ build_proxy() {
 }
 
 PARTS=()
+PNAMES=()
+PPIDS=()
 RC=0
-# run_part <name> <cmd...> : runs one engine with its own partial evidence file
+# run_part <name> <cmd...> : starts one engine in the background with its own
+# partial evidence file; finish_parts collects the verdicts
 run_part() {
   local name=$1; shift
   local part="$S/part-$name.json"
-  PARTS+=("$part")
-  VF_EVIDENCE="$part" "$@" > "$S/out-$name.log" 2>&1
-  local rc=$?
-  grep -E '^(VIOLATION|KNOWN-FINDING|SUMMARY|INCONCLUSIVE|NOTE)' "$S/out-$name.log"
-  # the verdict is what the engine wrote into its evidence, not its exit code
-  # (the Go test runner also exits non-zero for race reports, which belong to C09)
-  if [ ! -s "$part" ]; then
-    tail -n 60 "$S/out-$name.log" >&2
-    echo "HARNESS-ERROR engine $name exited $rc without evidence"; RC=2; return
-  fi
-  local nv
-  nv=$(jq -r '.violations // 0' "$part" 2>/dev/null || echo 0)
-  if [ "$nv" != 0 ]; then
-    grep -q '^VIOLATION' "$S/out-$name.log" || echo "VIOLATION property=$PROP replay=$part (engine $name recorded $nv violations)"
-    [ $RC -eq 2 ] || RC=1
-  fi
+  PARTS+=("$part"); PNAMES+=("$name")
+  ( VF_EVIDENCE="$part" "$@" > "$S/out-$name.log" 2>&1; echo $? > "$S/rc-$name" ) &
+  PPIDS+=($!)
+  [ -z "${VF_SERIAL:-}" ] || wait $!
+}
+
+finish_parts() {
+  wait "${PPIDS[@]}" 2>/dev/null
+  local k name part rc nv
+  for k in "${!PNAMES[@]}"; do
+    name=${PNAMES[$k]}; part=${PARTS[$k]}; rc=$(cat "$S/rc-$name" 2>/dev/null || echo 99)
+    grep -E '^(VIOLATION|KNOWN-FINDING|SUMMARY|INCONCLUSIVE|NOTE)' "$S/out-$name.log"
+    # the verdict is what the engine wrote into its evidence, not its exit code
+    # (the Go test runner also exits non-zero for race reports, which belong to C09)
+    if [ ! -s "$part" ]; then
+      tail -n 60 "$S/out-$name.log" >&2
+      echo "HARNESS-ERROR engine $name exited $rc without evidence"; RC=2; continue
+    fi
+    nv=$(jq -r '.violations // 0' "$part" 2>/dev/null || echo 0)
+    if [ "$nv" != 0 ]; then
+      grep -q '^VIOLATION' "$S/out-$name.log" || echo "VIOLATION property=$PROP replay=$part (engine $name recorded $nv violations)"
+      [ $RC -eq 2 ] || RC=1
+    fi
+  done
 }
 
 inpkg_test() { # <name> <TestFunc> [timeout]
   # race reports never change the exit code of a property's own run; they are
   # counted and attributed to C09 (see check_C09)
-  export GORACE="halt_on_error=0 exitcode=0 log_path=$S/race-$1"
-  run_part "$1" in_ns timeout -s QUIT "${3:-3000}" "$S/inpkg.test" -test.run "^$2\$" -test.timeout 0 -test.count 1
+  run_part "$1" env GORACE="halt_on_error=0 exitcode=0 log_path=$S/race-$1" "$ROOT/tools/ns.sh" timeout -s QUIT "${3:-3000}" "$S/inpkg.test" -test.run "^$2\$" -test.timeout 0 -test.count 1
 }
 
-# in_ns <cmd...> : run inside a private network+mount namespace when possible
-in_ns() {
-  if [ -z "${VF_NO_NS:-}" ] && unshare -n -m true 2>/dev/null; then
-    VF_IN_NS=1 unshare -n -m sh -c 'ip link set lo up; exec "$@"' sh "$@"
-  else
-    VF_IN_NS=0 "$@"
-  fi
-}
 
 count_races() { cat "$S"/race-* 2>/dev/null | grep -c 'WARNING: DATA RACE'; }
 
@@ -113,6 +115,7 @@ ensure_tools
 . "$ROOT/checks.sh"
 if ! declare -F "check_$PROP" >/dev/null; then echo "unknown property $PROP"; exit 2; fi
 "check_$PROP"
+finish_parts
 
 NR=$(count_races)
 [ "$NR" = 0 ] || echo "NOTE race-detector reports during this run: $NR (attributed to C09, see ./check.sh C09)"
